@@ -724,10 +724,13 @@ func c11r9(c *Ctx) {
 	ast.Inspect(f.Decl.Body, func(x ast.Node) bool {
 		if as, isA := x.(*ast.AssignStmt); isA && len(as.Lhs) == 1 && prog.IsField(info, "memcache.Request.NoReply")(as.Lhs[0]) {
 			if b, isC := prog.ConstBool(info, as.Rhs[0]); isC && !b {
-				if g := f.GuardsAt(as); len(g) == 0 {
-					ok = true
-				} else {
-					cond = c.pos(g[0].X)
+				ok = true
+				for _, a := range f.Enclosing(as) {
+					switch x := a.(type) {
+					case *ast.IfStmt, *ast.SwitchStmt, *ast.ForStmt, *ast.RangeStmt, *ast.CaseClause:
+						ok = false
+						cond = c.pos(x)
+					}
 				}
 			}
 		}
